@@ -214,12 +214,35 @@ def check_case(case, ctx):
             P = np.exp(D - np.logaddexp.reduce(D, axis=1)[:, None])
             sure = np.abs(P - 1e-4) > 1e-6
             want = np.where(P >= 1e-4, D, 0.0)
-            if S.shape != D.shape or np.abs(S - want)[sure].max() > 1e-5:
+            if S.shape != D.shape or not np.all(np.isfinite(S)) or not np.all(np.abs(S - want)[sure] <= 1e-5):
                 ctx.violation('sparse-keeps-posteriors-above-1e-4', f'{K}/sparsification',
                               f'{desc}: position {pos}: stored entries differ from the dense logits with posterior >= 1e-4')
                 return
             if np.any((P >= 1e-4) & (P < 0.02)) and np.any(P < 1e-4):
                 ctx.tag('sparse-keeps-small-and-prunes-smaller')
+    # a network that switches a class off with -inf logits (posterior exactly 0): nothing but finite numbers may be stored, and exactly the
+    # logits with posterior >= 1e-4
+    if mode == 'sparse' and lst and len(lst) <= 2 and bs in (1, 16) and cx == 0:
+        from mc import stubs
+        me = stubs.make_masked_engine(C, CHARS, 1, line_px_height=H, batch_size=bs)
+        sp = run(me, imgs, 'sparse')
+        de = run(stubs.make_masked_engine(C, CHARS, 1, line_px_height=H, batch_size=bs), imgs, 'dense')
+        ctx.executed(2)
+        for pos in range(len(lst)):
+            D = np.asarray(de[1][pos], dtype=np.float64)
+            S = todense(sp[1][pos]).astype(np.float64)
+            with np.errstate(invalid='ignore'):
+                P = np.exp(D - np.logaddexp.reduce(D, axis=1)[:, None])
+            sure = np.abs(P - 1e-4) > 1e-6
+            want = np.where(P >= 1e-4, D, 0.0)
+            ok = S.shape == D.shape and bool(np.all(np.isfinite(S))) and bool(np.all(np.abs(S - want)[sure] <= 1e-5))
+            if not ok or sp[0][pos] != de[0][pos]:
+                ctx.violation('sparse-keeps-posteriors-above-1e-4', f'{K}/sparsification/network-with-a-masked-class',
+                              f'{desc}: position {pos}: network whose class 1 scores -inf everywhere: stored logits finite: '
+                              f'{bool(np.all(np.isfinite(S)))}, equal to the dense logits with posterior >= 1e-4: {ok}; text sparse/dense '
+                              f'{sp[0][pos]!r}/{de[0][pos]!r}')
+                return
+        ctx.tag('network-with-minus-infinity-logits')
     # history: the same engine recognises the list again in reverse order
     if len(lst) >= 2:
         out2 = run(eng, imgs[::-1], mode)
@@ -265,21 +288,25 @@ def check_case(case, ctx):
         cfg = configparser.ConfigParser()
         cfg['OCR'] = {'OCR_JSON': stubs.ctc_engine_json(C, CHARS, line_px_height=H, pool=4, bias_blank=3.0, ctx=cx, offset=0.25), 'USE_CPU': 'yes'}
         pocr = PageOCR(cfg['OCR'], torch.device('cpu'))
-        page = PageLayout(id='p', page_size=(100, 100))
-        regs = [RegionLayout('r1', np.zeros((4, 2))), RegionLayout('r2', np.zeros((4, 2)))]
-        for pos, i in enumerate(lst):
-            regs[pos % 2].lines.append(TextLine(id=f'l{pos}', crop=crop(i)))
-        page.regions = regs
-        pocr.process_page(None, page)
-        ctx.executed()
         order = [p for p in range(len(lst)) if p % 2 == 0] + [p for p in range(len(lst)) if p % 2 == 1]
-        for line, pos in zip(page.lines_iterator(), order):
-            ref = reference(lst[pos], 8, cx, 'sparse')
-            if line.id != f'l{pos}' or line.transcription != ref[0] or list(line.logit_coords) != list(ref[2]) or \
-                    list(line.characters) != CHARS + ['​'] or np.abs(todense(line.logits)[:ref[1].shape[0]] - ref[1][:todense(line.logits).shape[0]]).max() > 1e-5:
-                ctx.violation('own-transcription-at-own-position', f'{ID}/PageOCR/line-result-mismatch',
-                              f'{desc}: PageOCR.process_page put a wrong result on line {line.id}')
-                return
+        # line ids as this library writes them (unique on the page), numbered per region (other tools), absent (pages imported from ALTO)
+        for idmode, mk_id in (('unique', lambda pos: f'l{pos}'), ('per-region', lambda pos: f'l{pos // 2}'), ('absent', lambda pos: None)):
+            page = PageLayout(id='p', page_size=(100, 100))
+            regs = [RegionLayout('r1', np.zeros((4, 2))), RegionLayout('r2', np.zeros((4, 2)))]
+            for pos, i in enumerate(lst):
+                regs[pos % 2].lines.append(TextLine(id=mk_id(pos), crop=crop(i)))
+            page.regions = regs
+            pocr.process_page(None, page)
+            ctx.executed()
+            for line, pos in zip(page.lines_iterator(), order):
+                ref = reference(lst[pos], 8, cx, 'sparse')
+                if line.id != mk_id(pos) or line.transcription != ref[0] or line.logits is None or line.logit_coords is None or \
+                        list(line.logit_coords) != list(ref[2]) or list(line.characters) != CHARS + ['​'] or \
+                        np.abs(todense(line.logits)[:ref[1].shape[0]] - ref[1][:todense(line.logits).shape[0]]).max() > 1e-5:
+                    ctx.violation('own-transcription-at-own-position', f'{ID}/PageOCR/line-result-mismatch' + ('' if idmode == 'unique' else f'/{idmode}-line-ids'),
+                                  f'{desc}: PageOCR.process_page put a wrong result (or none) on line {pos} (line ids {idmode}: {line.id!r}): '
+                                  f'transcription {line.transcription!r}, expected {ref[0]!r}')
+                    return
         ctx.tag('page-ocr-pages')
     if len(lst) == 2 and mode == 'sparse' and bs == 1 and cx == 0 and lst[0] == 7:
         ctx.sample({'crops': [CROPS[i] for i in lst], 'transcriptions': list(out1[0]), 'windows': [list(c) for c in out1[2]]})
@@ -294,6 +321,6 @@ def describe(tier):
         'assumptions': ['frames beyond a line\'s own tensor are padding and only need to decode to blank',
                         'over-long lines are compared with the alone-run under the same pixel budget (truncation depends on it)'],
         'min_nontrivial': 100,
-        'required_tags': ['more-than-255-lines-in-one-call', 'embedding-engine-id-changed-between-calls', 'mixed-width-batches', 'truncated-line', 'several-batches', 'equal-width-lines', 'page-ocr-pages',
+        'required_tags': ['network-with-minus-infinity-logits', 'more-than-255-lines-in-one-call', 'embedding-engine-id-changed-between-calls', 'mixed-width-batches', 'truncated-line', 'several-batches', 'equal-width-lines', 'page-ocr-pages',
                           'sparse-keeps-small-and-prunes-smaller'],
     }
